@@ -768,7 +768,7 @@ async fn h2_tunnel(
     let req = http::Request::builder()
         .method(http::Method::CONNECT)
         .uri(addr.to_string())
-        .header("proxy-authorization", basic_auth("u0", "p0"))
+        .header("proxy-authorization", basic_auth("u0", "p0-secret-password"))
         .header("user-agent", "sim/1.0")
         .body(())
         .unwrap();
@@ -951,7 +951,7 @@ async fn h1_tunnel(seed: u64, t: TunnelPlan, conn: PeerConn, obs: Shared<TunnelO
     let head = format!(
         "CONNECT {a} HTTP/1.1\r\nHost: {a}\r\nProxy-Authorization: {auth}\r\nUser-Agent: sim/1.0\r\n\r\n",
         a = addr,
-        auth = basic_auth("u0", "p0")
+        auth = basic_auth("u0", "p0-secret-password")
     );
     // the head travels in one piece here: segmentation of heads belongs to C08's scenario
     if conn.write_all(head.as_bytes()).await.is_err() {
